@@ -1045,4 +1045,135 @@ theorem byLibrary_mem (l : List FGpu) : ∀ g ∈ byLibrary l, ∀ m ∈ g.membe
     exact ih _ (fun m hm => hl m (by simp [hm]))
       (insertGroup_members (· ∈ l) x (hl x (by simp)) acc h)
 
+/-! ### the load path -/
+
+theorem removeFirstId_sublist (id : Nat) : ∀ (l : List IGpu), (removeFirstId id l).Sublist l := by
+  intro l
+  induction l with
+  | nil => simp [removeFirstId]
+  | cons g rest ih =>
+    simp only [removeFirstId]
+    split
+    · exact List.sublist_cons_self g rest
+    · exact ih.cons_cons g
+
+theorem removeIds_sublist : ∀ (ids : List Nat) (l : List IGpu), (removeIds ids l).Sublist l := by
+  intro ids
+  induction ids with
+  | nil => intro l; simp [removeIds]
+  | cons id rest ih =>
+    intro l
+    simp only [removeIds]
+    exact (ih _).trans (removeFirstId_sublist id l)
+
+theorem filterLoading_sublist : ∀ (rs : List LRunner) (l : List IGpu), (filterLoading rs l).Sublist l := by
+  intro rs
+  induction rs with
+  | nil => intro l; simp [filterLoading]
+  | cons r rest ih =>
+    intro l
+    simp only [filterLoading]
+    split
+    · exact (ih _).trans (removeIds_sublist r.ids l)
+    · exact ih l
+
+def idsOf (l : List IGpu) : List Nat := l.map (fun g => g.f.idk)
+
+theorem idsOf_nodup_sublist {l l' : List IGpu} (h : l'.Sublist l) (hn : (idsOf l).Nodup) : (idsOf l').Nodup :=
+  List.Nodup.sublist (h.map _) hn
+
+/-- with unique IDs, removing the first entry with an ID removes the ID -/
+theorem removeFirstId_gone (id : Nat) : ∀ (l : List IGpu), (idsOf l).Nodup →
+    ∀ g ∈ removeFirstId id l, g.f.idk ≠ id := by
+  intro l
+  induction l with
+  | nil => intro _ g hg; simp [removeFirstId] at hg
+  | cons a rest ih =>
+    intro hn g hg
+    simp only [idsOf, List.map_cons, List.nodup_cons] at hn
+    simp only [removeFirstId] at hg
+    split at hg
+    · rename_i heq
+      have heq' : a.f.idk = id := by simpa using heq
+      intro hgid
+      apply hn.1
+      rw [heq', ← hgid]
+      exact List.mem_map.mpr ⟨g, hg, rfl⟩
+    · rename_i hne
+      simp only [List.mem_cons] at hg
+      rcases hg with rfl | hg
+      · simpa using hne
+      · exact ih hn.2 g hg
+
+theorem removeIds_gone : ∀ (ids : List Nat) (l : List IGpu), (idsOf l).Nodup →
+    ∀ id ∈ ids, ∀ g ∈ removeIds ids l, g.f.idk ≠ id := by
+  intro ids
+  induction ids with
+  | nil => intro l _ id hid; simp at hid
+  | cons x rest ih =>
+    intro l hn id hid g hg
+    simp only [removeIds] at hg
+    have hn' := idsOf_nodup_sublist (removeFirstId_sublist x l) hn
+    simp only [List.mem_cons] at hid
+    rcases hid with rfl | hid
+    · exact removeFirstId_gone id l hn g ((removeIds_sublist rest _).subset hg)
+    · exact ih _ hn' id hid g hg
+
+/-- **GPUs of a runner that is still loading are not offered**: with unique IDs in the inventory,
+    no GPU left by `filterGPUsWithoutLoadingModels` carries an ID a loading runner was provisioned on -/
+theorem filterLoading_gone : ∀ (rs : List LRunner) (l : List IGpu), (idsOf l).Nodup →
+    ∀ r ∈ rs, r.loading = true → ∀ id ∈ r.ids, ∀ g ∈ filterLoading rs l, g.f.idk ≠ id := by
+  intro rs
+  induction rs with
+  | nil => intro l _ r hr; simp at hr
+  | cons a rest ih =>
+    intro l hn r hr hld id hid g hg
+    simp only [filterLoading] at hg
+    simp only [List.mem_cons] at hr
+    rcases hr with rfl | hr
+    · simp only [hld, ↓reduceIte] at hg
+      exact removeIds_gone r.ids l hn id hid g ((filterLoading_sublist rest _).subset hg)
+    · split at hg
+      · exact ih _ (idsOf_nodup_sublist (removeIds_sublist a.ids l) hn) r hr hld id hid g hg
+      · exact ih l hn r hr hld id hid g hg
+
+theorem zipWith_map_self {α β γ : Type} (f : α → β → γ) (h : α → β) : ∀ (l : List α),
+    List.zipWith f l (l.map h) = l.map (fun x => f x (h x)) := by
+  intro l
+  induction l with
+  | nil => rfl
+  | cons a rest ih => simp [ih]
+
+/-- the summed prediction `updateFreeSpace` holds against GPU `g` of the load path -/
+def loadPred (inv : List IGpu) (runners : List LRunner) (g : IGpu) : Nat :=
+  predOf ((filterLoading runners inv).map IGpu.toS) (runners.map LRunner.toR) g.lkey
+
+theorem any_toR (runners : List LRunner) (h : runners ≠ []) :
+    (runners.map LRunner.toR).any (·.isSome) = true := by
+  cases runners with
+  | nil => exact absurd rfl h
+  | cons a rest => simp [LRunner.toR]
+
+/-- every GPU the load path offers to the pick functions is a GPU of the inventory that no loading
+    runner sits on, with its free figure lowered (never raised), and — when the prediction does not
+    exceed the total — free + predicted ≤ total -/
+theorem adjInv_mem (inv : List IGpu) (runners : List LRunner) (hne : runners ≠ []) :
+    ∀ m ∈ adjInv inv runners, ∃ g ∈ filterLoading runners inv, ∃ fr, m = g.withFree fr ∧
+      fr ≤ g.f.gpu.free ∧ (loadPred inv runners g ≤ g.total → fr + loadPred inv runners g ≤ g.total) := by
+  intro m hm
+  unfold adjInv updateFree at hm
+  simp only [any_toR runners hne, ↓reduceIte, List.map_map] at hm
+  rw [zipWith_map_self] at hm
+  simp only [List.mem_map] at hm
+  obtain ⟨g, hg, rfl⟩ := hm
+  refine ⟨g, hg, _, rfl, ?_, ?_⟩
+  · exact adjust_le_free _ _
+  · intro hp
+    exact adjust_le_total _ _ hp
+
+theorem adjInv_length (inv : List IGpu) (runners : List LRunner) :
+    (adjInv inv runners).length = (filterLoading runners inv).length := by
+  unfold adjInv
+  simp [List.length_zipWith, updateFree_length]
+
 end OllamaVerif.Memory
